@@ -42,6 +42,10 @@ PROPS = {
                 rule="a run = 3 ebpps sketches (k 1..32, one with 2k+1) fed unique weighted items, merged in both directions (lvalue/rvalue), restored, reset; draws owned by the simulator (10% of runs replace one draw by an extreme); n, cumulative weight, c = min(k, W/wmax), result size floor/ceil of c, membership after every step; distinct = distinct plan hash"),
     "C20": dict(level="exploration", units=[("addagg", "c20", 16, 2400, 80000)],
                 rule="a run = 3 density sketches (float/double, Gaussian or a harness kernel, k 2..16, dim 1..4) fed points, merged by reference and by move, restored, with wrong-dimension updates/merges; coin bit source seeded or adversarial; n, iterator weights 2^level, membership, retained bound, estimation-mode flag, exact kernel mean before the first compaction after every step; distinct = distinct plan hash"),
+    "C15": dict(level="exploration", units=[("shm", "c15", 16, 8000, 300000)],
+                rule="a run = one caller memory block of exactly the serialized size and up to 5 views of it or snapshots of it created and destroyed by the scheduler (initialize_by_size owner, writable_wrap, wrap, deserialize from bytes or stream, copies), with typed update / query_and_update / query, union / intersect / invert against compatible and incompatible filters, reset, get_bits_used, serialize, writes through read-only views and view deaths; a bit-array model on an independent XXH64; after every step every view not overtaken by another writer plus a fresh wrap, writable wrap and deserialize of the memory are compared with the model; non-trivial = at least one new view of written memory; distinct = distinct plan hash"),
+    "C19": dict(level="exploration", units=[("heap_d", "c19d", 5, 3000, 100000), ("heap_q", "c19q", 6, 3600, 120000), ("heap_m", "c19m", 5, 3000, 100000)],
+                rule="a run = a pool of up to 6 live objects of one family (27 family/type instantiations, tracking allocator with arenas, instrumented items for the generic sketches) and an interleaving of construct, update, copy/move construct, copy/move assign, self assign, self move-assign, assignment chains, merge by reference and by move, query, serialize->deserialize into the pool, reset, destroy; per-object expected observation; non-trivial = at least one copy/move/assign/merge/restore; distinct = distinct plan hash"),
     "C09": dict(level="exploration", units=[("store_d", "c09d", 6, 2400, 60000), ("store_q", "c09q", 5, 2000, 50000), ("store_m", "c09m", 5, 2000, 50000)],
                 rule="a run = one seeded history (feed/merge/reset, checkpoints through either API with header/chunk/trailing/torn/lost faults, crashes with recovery from the log) over one family and configuration; non-trivial = executed at least one checkpoint round-trip or fault; distinct = distinct plan hash"),
     "C11": dict(level="fault_enumeration", units=[("store_d", "c11d", 6, 360, 9000), ("store_q", "c11q", 5, 300, 7500), ("store_m", "c11m", 5, 300, 7500)],
